@@ -83,7 +83,7 @@ def main(tier):
 
     spec = docspec.spec()
     k1r = {r for r, d in spec.items() if d["group"] in ("alignment", "indent", "structure")}
-    its = common.pipe_items(tier, KQ, KT, k1=(tier != "quick"), k1_rules=k1r) + common.k2_items(tier, skip=(tier != "quick"))
+    its = common.pipe_items(tier, KQ, KT, k1=(tier != "quick"), k1_rules=k1r, all_on=False) + common.k2_items(tier, skip=(tier != "quick"), case=True)
     m = explore.run(its, execute, horizon=240.0, label=PROP)
     return report.finish(
         PROP, tier, "model_checking", [m], t0,
